@@ -853,7 +853,7 @@ int _vnacal_new_solve_internal(vnacal_new_t *vnp)
 	    if (vnp->vn_pvalue_vector != NULL) {
 		vnp->vn_pvalue_vector[findex] = pvalue;
 	    }
-	    if (pvalue < vnp->vn_pvalue_limit) {
+	    if (!(pvalue >= vnp->vn_pvalue_limit)) {
 		_vnacal_error(vcp, VNAERR_MATH, "vnacal_new_solve: "
 			"measurements are inconsistent with the error "
 			"model with a pvalue of %g at %e Hz",
